@@ -3,8 +3,9 @@
 Decided: flip_msb (involution, fixes 0 and 128, length, element-local); swap_multiples
 (negative multiple rejected and zero returned before any mutation; mutation only through the
 swap idiom => length and multiset preserved); interleave/deinterleave (length preserved,
-schedule independent of contents; in the thorough tier the weave schedule is summarised in
-closed form and the two functions are shown to be mutually inverse permutations).
+schedule independent of contents; the weave loops are summarised in closed form over a
+symbolic length 2m+rho and the two functions are shown to be total, mutually inverse
+permutations of positions -- c10_weave.py).
 Not decided: swap_multiples is an involution / fixes non-multiples (run-length loop invariant).
 """
 import ast
